@@ -21,6 +21,19 @@ A = "tf_pwa/angle.py::"
 Wrap = sp.Function("Wrap")
 
 
+def _bind(names, args, kwargs, defaults=None):
+    """positional/keyword binding for hook functions that stand in for repo callables"""
+    out = list(args[: len(names)])
+    for nm in names[len(out):]:
+        if nm in kwargs:
+            out.append(kwargs[nm])
+        elif defaults and nm in defaults:
+            out.append(defaults[nm])
+        else:
+            raise Unmodelled("argument %s missing in a hooked call" % nm)
+    return out
+
+
 def check_su2(repo, chk, parts=("algebra", "euler")):
     chk.rule("E6-su2", "SU2M: matrix product, inverse, unit determinant and additivity of the generators; get_euler_angle(R_z(g) R_y(b) R_z(a)) yields angles that rebuild the same SU(2) matrix (including its sign)")
     u, v = sp.symbols("u v", real=True)
@@ -60,7 +73,7 @@ def check_su2(repo, chk, parts=("algebra", "euler")):
         # x % (2 pi) = W(x - pi) + pi with W the wrap to (-pi, pi]
         "binop:Mod": lambda tr, a, b: (Wrap(a - sp.pi) + sp.pi) if sp.simplify(b - 2 * sp.pi) == 0 or abs(float(b) - 6.283185307179586) < 1e-12 else (_ for _ in ()).throw(Unmodelled("modulo by %s" % b)),
         A + "SU2M": lambda tr, args, kwargs, n: {"x": args[0]},
-        A + "EulerAngle": lambda tr, args, kwargs, n: {"alpha": args[0], "beta": args[1], "gamma": args[2]},
+        A + "EulerAngle": lambda tr, args, kwargs, n: dict(zip(("alpha", "beta", "gamma"), _bind(["alpha", "beta", "gamma"], args, kwargs, {"alpha": 0, "beta": 0, "gamma": 0}))),
     }
     tr = Translator(repo, hooks=hooks, max_depth=6)
     chk.assume("SU2M euler clause: 0 < beta < pi (clip_by_value inactive, cos(beta/2), sin(beta/2) > 0); (alpha+gamma)/2 and (alpha-gamma)/2 in (-pi, pi)")
